@@ -459,13 +459,16 @@ def _parse_line_v33(raw, system):
 
     out = defaultdict(list)
     for data in raw['branch']:
+        # a minus sign on `J` only designates the metered end
+        bus2 = abs(data[1]) if isinstance(data[1], (int, float)) else data[1]
+
         param = {
             'u': data[13],
-            'bus1': data[0], 'bus2': data[1],
+            'bus1': data[0], 'bus2': bus2,
             'r': data[3], 'x': data[4], 'b': data[5],
             'rate_a': data[6], 'rate_b': data[7], 'rate_c': data[8],
             'Vn1': system.Bus.get(src='Vn', idx=data[0], attr='v'),
-            'Vn2': system.Bus.get(src='Vn', idx=data[1], attr='v'),
+            'Vn2': system.Bus.get(src='Vn', idx=bus2, attr='v'),
         }
         out['Line'].append(param)
 
